@@ -58,7 +58,9 @@ CLAIM = dict(
          'argument forms (tuple / int32 / int64 arrays, NumPy scalars, F-ordered / non-contiguous cores, flags as 1 / np.bool_), '
          'three calls on the same argument objects, and OPTION COVERAGE: every optional parameter of every exported function set to '
          'a non-default value one at a time (booleans flipped, numeric options changed, optional arrays / callbacks / dictionaries '
-         'supplied) in the history / shared-arguments / poison streams; the pairs not exercised are listed in the evidence '
+         'supplied) in the history / shared-arguments / poison streams; the shared-arguments stream is repeated for three memory '
+         'layouts of the inputs (C-ordered, Fortran-ordered, all TT-ranks 1); a result-mutation stream (call, overwrite the returned '
+         'objects in place, call again, compare bytes with a snapshot); the pairs not exercised are listed in the evidence '
          '(coverage.options_not_exercised)) -- that part is '
          'validation, not proof. For np.empty the translator only checks that a store is executed on every path; that the '
          'stores cover every element is validated by the allocator-poisoning stream only. Trusted: NumPy '
@@ -226,8 +228,9 @@ def short(c, n=160):
 class Env:
     """inputs shared by the recipes (built once from the check's PRNG; small so that every call is fast)"""
 
-    def __init__(self, tn, rng):
+    def __init__(self, tn, rng, layout='C'):
         self.tn = tn
+        self.layout = layout
         g = np.random.default_rng(rng.randrange(2 ** 31))
         self.n = [4, 5, 3]
         self.n4 = [4, 4, 4]
@@ -261,6 +264,20 @@ class Env:
         self.Ytiny = [G * 2. ** -150 for G in self.Yp]
         self.Isp = np.array([[0, 0, 0], [1, 1, 1], [2, 2, 2], [3, 3, 3], [0, 1, 2], [1, 2, 3]])
         self.ysp = np.arange(6.) + 1
+        self.Xg = [np.cos(np.pi * np.arange(4) / 3) for _ in range(3)]
+        # memory layouts of the same inputs: C-ordered (as built above / by teneva.copy), Fortran-ordered (as built by
+        # teneva.rand), all TT-ranks equal to 1 (every unfolding of a core is a view)
+        tts = ['Y', 'Y2', 'Yp', 'A', 'Y0', 'Y1', 'Yp1', 'A1', 'Yq', 'Ybig', 'Ytiny']
+        if layout == 'rank1':
+            for a in tts:
+                setattr(self, a, [np.ascontiguousarray(G[:1, :, :1]) for G in getattr(self, a)])
+            self.G = np.ascontiguousarray(self.G[:1, :, :1])
+            self.R22, self.R33 = self.R22[:1, :1].copy(), self.R33[:1, :1].copy()
+        if layout == 'F':
+            for a in tts + ['Ymat']:
+                setattr(self, a, [np.asfortranarray(G) for G in getattr(self, a)])
+            for a in ['G', 'M', 'M44', 'X', 'I', 'Iy', 'I44', 'R22', 'R33']:
+                setattr(self, a, np.asfortranarray(getattr(self, a)))
 
     @staticmethod
     def f_cross(I):
@@ -419,6 +436,55 @@ def check_argforms(E, seed, fails, stats, only=None):
                                   input=dict(recipe=['argform', name, label], seed=seed, mode='argument-form'), got=short(r), expected=short(ref)))
 
 
+def scribble(x, depth=0):
+    """overwrite in place everything writable that is reachable from a result"""
+    if depth > 6:
+        return
+    if isinstance(x, np.ndarray):
+        if x.dtype == object:
+            for y in x.ravel().tolist():
+                scribble(y, depth + 1)
+        elif x.flags.writeable and x.size:
+            try:
+                x[...] = (x * 0 + 7) if x.dtype != bool else ~x
+            except Exception:
+                pass
+    elif isinstance(x, (list, tuple)):
+        for y in x:
+            scribble(y, depth + 1)
+        if isinstance(x, list):
+            x.append('scribbled')
+    elif isinstance(x, dict):
+        for y in list(x.values()):
+            scribble(y, depth + 1)
+        x['scribbled'] = 1
+
+
+def check_result_mutation(E, seeds, fails, stats, only=None):
+    """call, overwrite the returned objects in place (what a caller is free to do with a result), call again with equal
+    arguments: the second result must be bit-identical to a snapshot of the first (no result object is kept by the library)"""
+    for key, t in all_thunks(E, seeds, degenerate=False):
+        if only and 'mutate' not in only and key[0] not in only:
+            continue
+        np.random.seed(6)
+        try:
+            with contextlib.redirect_stdout(io.StringIO()), warnings.catch_warnings():
+                warnings.simplefilter('ignore')
+                r1 = t()
+        except Exception:
+            continue                      # an exception returns nothing that could be mutated
+        snap = canon(r1)
+        scribble(r1)
+        r2 = run_call(t)[0]
+        stats['evals'] += 2
+        stats['keys'].append(('mutate',) + key)
+        if r2 != snap:
+            fails.append(dict(what=f'{key[0]}: call, overwrite the returned arrays in place, call again with equal arguments: the second '
+                                   f'result is not bit-identical to the first (the library keeps / hands out again an object it returned)',
+                              input=dict(recipe=['mutate', key[0], key[1]], seed=key[2], layout=E.layout, mode='result-mutation'),
+                              got=short(r2), expected=short(snap)))
+
+
 def check_shared_args(E, seeds, fails, stats, only=None):
     """every recipe called three times on the SAME argument objects (no copies), interleaved with the other recipes that use
     them: every call must give the reference result (computed on saved copies) and the argument objects must be bit-identical
@@ -441,13 +507,13 @@ def check_shared_args(E, seeds, fails, stats, only=None):
                 if r != refs[key]:
                     fails.append(dict(what=f'{key[0]}: call number {rnd + 1} on the SAME argument objects (interleaved with the other '
                                            f'routines that use them) differs from the result on fresh copies',
-                                      input=dict(recipe=['shared', key[0], key[1]], seed=key[2], round=rnd, mode='shared-arguments'),
+                                      input=dict(recipe=['shared', key[0], key[1]], seed=key[2], round=rnd, layout=E.layout, mode='shared-arguments'),
                                       got=short(r), expected=short(refs[key])))
                     refs[key] = r
                 bad = [a for a in attrs if canon(getattr(E, a)) != before[a]]
                 if bad:
                     fails.append(dict(what=f'{key[0]}: the argument objects {bad} were modified by the call (later calls on the same objects '
-                                           f'see other data)', input=dict(recipe=['shared', key[0], key[1]], seed=key[2], mode='shared-arguments')))
+                                           f'see other data)', input=dict(recipe=['shared', key[0], key[1]], seed=key[2], layout=E.layout, mode='shared-arguments')))
                     for a in bad:
                         before[a] = canon(getattr(E, a))
     finally:
@@ -642,6 +708,7 @@ def sys_base(E):
     B['func_gets_full'] = lambda: ([tn.full(cp(A)), -1., 1.], {})
     B['func_int'] = lambda: ([cp(Y0)], {})
     B['func_int_full'] = lambda: ([tn.full(cp(Y0))], {})
+    B['func_int_general'] = lambda: ([cp(E.Y0), cp(E.Xg), lambda x: tn.func_basis(np.asarray(x, dtype=float), 3)], {})
     B['func_sum'] = lambda: ([cp(A), -1., 1.], {})
     B['func_sum_full'] = lambda: ([tn.full(cp(A)), -1., 1.], {})
     B['get'] = lambda: ([cp(Y), [1, 2, 0]], {})
@@ -719,12 +786,12 @@ def sys_alternatives(E, fname, pname, default):
         ('als', 'w'): [dict(w=np.linspace(0.5, 1.5, len(y)))], ('als', 'cb'): [dict(cb=cb)],
         ('als', 'swap_tol'): [dict(r=3, allow_swap=True, swap_tol=1, I_vld=cp(I[:20]), y_vld=cp(y[:20]))],
         ('als', 'allow_swap'): [dict(r=3, allow_swap=True, I_vld=cp(I[:20]), y_vld=cp(y[:20]))],
-        ('als', 'update_sol'): [dict(update_sol=True)], ('als', 'lamb'): [dict(lamb=1e-1)], ('als', 'info'): [dict(info={})],
+        ('als', 'update_sol'): [dict(update_sol=True)], ('als', 'lamb'): [dict(lamb=1e-1), dict(lamb=None), dict(lamb=None, w=np.linspace(0.5, 1.5, len(y)))], ('als', 'info'): [dict(info={})],
         ('als_func', 'X_vld'): [dict(X_vld=cp(X[:20]), y_vld=cp(yx[:20]))], ('als_func', 'y_vld'): [dict(X_vld=cp(X[20:40]), y_vld=cp(yx[20:40]))],
         ('als_func', 'e_vld'): [dict(X_vld=cp(X[:20]), y_vld=cp(yx[:20]), e_vld=1e-1)],
         ('als_func', 'fh'): [dict(fh=lambda x: tn.func_basis(x, 4))], ('als_func', 'n_max'): [dict(n_max=6)],
         ('als_func', 'update_sol'): [dict(update_sol=True)], ('als_func', 'a'): [dict(a=-2.)], ('als_func', 'b'): [dict(b=2.)],
-        ('als_func', 'lamb'): [dict(lamb=1e-1)], ('als_func', 'thr_pow'): [dict(n_max=6, thr_pow=1e-2)], ('als_func', 'info'): [dict(info={})],
+        ('als_func', 'lamb'): [dict(lamb=1e-1), dict(lamb=None)], ('als_func', 'thr_pow'): [dict(n_max=6, thr_pow=1e-2)], ('als_func', 'info'): [dict(info={})],
         ('cross', 'm'): [dict(m=100)], ('cross', 'e'): [dict(e=1e-3)], ('cross', 'nswp'): [dict(nswp=1)],
         ('cross', 'I_vld'): [dict(I_vld=cp(E.I44[:20]), y_vld=Env.f_cross(E.I44[:20]))], ('cross', 'y_vld'): [dict(I_vld=cp(E.I44[20:40]), y_vld=Env.f_cross(E.I44[20:40]))],
         ('cross', 'e_vld'): [dict(I_vld=cp(E.I44[:20]), y_vld=Env.f_cross(E.I44[:20]), e_vld=1e-2)],
@@ -778,7 +845,7 @@ def sys_alternatives(E, fname, pname, default):
         ('rand', 'a'): [dict(a=-3.)], ('rand', 'b'): [dict(b=3.)], ('rand_norm', 'm'): [dict(m=2.)], ('rand_norm', 's'): [dict(s=0.25)],
         ('rand_stab', 'noise'): [dict(noise=1e-3)],
         ('get', '_to_item'): [dict(_to_item=False)], ('get_many', '_to_item'): [dict(_to_item=False)],
-        ('func_diff_matrix', 'm'): [dict(m=2)],
+        ('func_diff_matrix', 'm'): [dict(m=2)], ('func_int_general', 'rcond'): [dict(rcond=1e-2)],
     }
     if pname == 'seed':
         return []                                  # the seed has its own streams
@@ -833,7 +900,7 @@ def systematic_recipes(E):
             def th():
                 a, k = B[nm]()
                 k = dict(k)
-                k.update({x: v for x, v in (kw or {}).items() if x != '_args'})
+                k.update({x: (v if callable(v) else cp(v)) for x, v in (kw or {}).items() if x != '_args'})
                 if kw and '_args' in kw:
                     a = kw['_args']()
                 r = getattr(E.tn, nm)(*a, **k)
@@ -1495,12 +1562,18 @@ def run_dynamic(tn, rng, deep, only=None):
         except Exception as e:
             traceback.print_exc()
             fails.append(dict(what=f'argument forms: harness raised {e!r}', input=dict(recipe=['argform'])))
-    if not only or 'shared' in only:
+    if not only or 'shared' in only or 'mutate' in only:
         try:
-            check_shared_args(E, seeds[-1:], fails, stats)
+            lay_seed = rng.randrange(2 ** 31)
+            for lay in ('C', 'F', 'rank1'):
+                EL = E if lay == 'C' else Env(tn, C.Rng(lay_seed), layout=lay)
+                if not only or 'shared' in only:
+                    check_shared_args(EL, seeds[-1:], fails, stats)
+                if (not only and lay == 'C') or (only and 'mutate' in only):
+                    check_result_mutation(EL, seeds[-1:], fails, stats)
         except Exception as e:
             traceback.print_exc()
-            fails.append(dict(what=f'shared arguments: harness raised {e!r}', input=dict(recipe=['shared'])))
+            fails.append(dict(what=f'shared arguments / result mutation: harness raised {e!r}', input=dict(recipe=['shared'])))
     if not only or 'history' in only:
         try:
             history_probe(rng.randrange(2 ** 31), seeds[-1:], fails, stats)
@@ -1579,7 +1652,7 @@ def search(R, ctx, deep, hints):
     if deep and not fails:
         # the obligation or the correspondence broke: look harder (more worlds, more seeds) -- first at the flagged functions
         flagged = {h['input'].get('function', '').split('.')[-1] for h in hints if h.get('static')}
-        flagged = {('ANOVA' if 'ANOVA' in f else f) for f in flagged} | {'dict', 'import', 'poison', 'history', 'argform', 'shared'}
+        flagged = {('ANOVA' if 'ANOVA' in f else f) for f in flagged} | {'dict', 'import', 'poison', 'history', 'argform', 'shared', 'mutate'}
         for only in ([sorted(flagged)] if flagged else []) + [None]:
             f2, st = run_dynamic(tn, ctx['rng'], deep=True, only=only)
             n += st['evals']
